@@ -182,7 +182,6 @@ type c07rRun struct {
 	restored   bool // a fast-import graph came back from a snapshot (needs-refine compensation lost)
 	counter    int  // harness estimate of the index's node counter (decides which batches take the parallel path)
 	nSeq, nPar int  // nodes of the current graph inserted one by one (Index.Add) / by the parallel batch path
-	seqWork    bool // the history contains sequential inserts on a non-trivial graph (finding add-prune-unsorted)
 	points     []c07Point
 	labels     map[string]bool
 }
@@ -430,7 +429,7 @@ func (r *c07rRun) phase(p string) string {
 		r.prec = to
 		r.hasSnap = true
 		// the index was rebuilt from scratch by sequential inserts of the live vectors
-		r.imported, r.restored, r.seqWork = false, false, true
+		r.imported, r.restored = false, false
 		r.counter, r.nSeq, r.nPar = len(r.liveIDs), len(r.liveIDs), 0
 	case "restart":
 		if err := r.e.Close(); err != nil {
@@ -444,7 +443,6 @@ func (r *c07rRun) phase(p string) string {
 		r.e = e
 		if !r.hasSnap {
 			// log-only recovery re-inserts the live vectors one by one
-			r.seqWork = true
 			r.counter, r.nSeq, r.nPar = len(r.liveIDs), len(r.liveIDs), 0
 		} else if r.imported {
 			// the graph of a fast import came back from a snapshot; the needs-refine compensation is not persisted
@@ -460,7 +458,6 @@ func (r *c07rRun) phase(p string) string {
 			return ""
 		}
 		half := n / 2
-		r.seqWork = true
 		if m := r.insert("single", r.nextVec, r.nextVec+half); m != "" {
 			return m
 		}
@@ -503,7 +500,6 @@ func c07RunRecall(c c07RecallCase) (msg string, r *c07rRun) {
 		return "harness: VCreate: " + err.Error(), r
 	}
 	r.imported = c.Build == "import" || c.Build == "mixed"
-	r.seqWork = c.Build == "single" || c.Build == "mixed"
 	switch c.Build {
 	case "single", "batch", "import":
 		msg = r.insert(c.Build, 0, c.N)
@@ -554,6 +550,9 @@ func c07Anchors() []c07Anchor {
 		{quick: true, c: c07RecallCase{Anchor: "small-import", Cfg: c07Cfg{Metric: "euclidean", Prec: "float16", M: 8, EfC: 40, Dim: 16}, N: 1500, Data: "gauss", Build: "import", Chunk: 200, Phases: []string{"refine", "del50", "vacuum"}, NQ: 200}},
 		// default parameters, one-by-one inserts
 		{c: c07RecallCase{Anchor: "default-single", Cfg: c07Cfg{Metric: "euclidean", Prec: "float32", M: 16, EfC: 200, Dim: 64}, N: 2000, Data: "gauss", Build: "single", Chunk: 200, Phases: []string{"del30", "vacuum", "grow"}, NQ: 200}},
+		// regression configuration of the fixed defect "Index.Add pruned reverse links on an unsorted candidate list"
+		// (replays/C07/reg_add-prune-unsorted.json): small M on unclustered 64-d data, one-by-one inserts
+		{c: c07RecallCase{Anchor: "single-hard", Cfg: c07Cfg{Metric: "euclidean", Prec: "float32", M: 8, EfC: 40, Dim: 64}, N: 3000, Data: "uniform", Build: "single", Chunk: 1000, Phases: []string{"grow"}, NQ: 200}},
 		// compression to int8 of a cosine index
 		{c: c07RecallCase{Anchor: "compress-int8", Cfg: c07Cfg{Metric: "cosine", Prec: "float32", M: 16, EfC: 40, Dim: 32}, N: 1000, Data: "gauss", Build: "batch", Chunk: 100, Phases: []string{"compress", "del10"}, NQ: 200}},
 	}
@@ -587,22 +586,6 @@ func c07Class(c c07RecallCase, prec, path string) string {
 	return fmt.Sprintf("M%d/efC%d/%s/%s%s/%s", c.Cfg.M, c.Cfg.EfC, kind, hard, q, path)
 }
 
-// c07JudgeClass is the class whose floors a checkpoint is held to. Known finding "add-prune-unsorted"
-// (sequential inserts prune reverse links on an unsorted candidate list and build a worse graph than the batch
-// path): while it is listed every checkpoint is held to the floor measured for its own build path; with
-// VERIF_NOEXCLUDE=add-prune-unsorted the floors of the batch-built graphs of the same configuration apply to all.
-func c07JudgeClass(class string) string {
-	if verifkit.Known(c07FindingPrune) {
-		return class
-	}
-	for _, sfx := range []string{"/seq", "/mix"} {
-		if strings.HasSuffix(class, sfx) {
-			return strings.TrimSuffix(class, sfx) + "/par"
-		}
-	}
-	return class
-}
-
 // c07Stat is the measured distribution of one statistic in one class on the unchanged tree and the floor
 // derived from it: Floor = min(Mean - 10*Sd, Min - 2*Sd), where Sd is the measured standard deviation but
 // not less than the resolution of the statistic (0.01 for recall, 1/30 for the self-retrieval rate).
@@ -628,12 +611,11 @@ func c07Judge(c c07RecallCase, pts []c07Point) string {
 		if p.Live < 50 || strings.HasSuffix(p.Class, "R") {
 			continue
 		}
-		jc := c07JudgeClass(p.Class)
-		f, ok := c07Floors[jc]
+		f, ok := c07Floors[p.Class]
 		if !ok {
 			continue
 		}
-		detail := fmt.Sprintf("class %s (floor measured on %d checkpoints of %d cases of class %s); live=%d maxLevel=%d short-result queries=%d needsRefine=%v", p.Class, f.Points, f.Cases, jc, p.Live, p.EpLevel, p.Short, p.Refining)
+		detail := fmt.Sprintf("class %s (floor measured on %d checkpoints of %d cases); live=%d maxLevel=%d short-result queries=%d needsRefine=%v", p.Class, f.Points, f.Cases, p.Live, p.EpLevel, p.Short, p.Refining)
 		if p.Recall0 < f.R0.Floor {
 			return fmt.Sprintf("recall@10 (efSearch=0) after [%s] is %.3f, below the floor %.3f (measured mean %.3f sd %.3f min %.3f); %s", p.After, p.Recall0, f.R0.Floor, f.R0.Mean, f.R0.Sd, f.R0.Min, detail)
 		}
@@ -721,9 +703,6 @@ func TestVerif_C07_recall(t *testing.T) {
 			return
 		}
 		recs = append(recs, c07Rec{Case: c, Points: r.points})
-		if r.seqWork {
-			col.Excluded(c07FindingPrune) // judged against floors measured with the defect in
-		}
 		for _, p := range r.points {
 			if p.Live < 50 {
 				continue
@@ -732,7 +711,7 @@ func TestVerif_C07_recall(t *testing.T) {
 				col.Label("checkpoint-observed-only(restored fast-import graph)", 1)
 				continue
 			}
-			f, ok := c07Floors[c07JudgeClass(p.Class)]
+			f, ok := c07Floors[p.Class]
 			if !ok {
 				col.Label("checkpoint-observed-only(class without measured floor)", 1)
 				continue
